@@ -123,7 +123,7 @@ def r13_3(ctx):
         for present in itertools.combinations(tstates, r):
             tasks = [Obj(f"T_{s}", TASK) for s in present]
             heap = {(t.name, "state"): E(TS, s) for t, s in zip(tasks, present)}
-            I = mk_interp(ctx, collections={"self.targeted_task_list": tasks})
+            I = mk_interp(ctx, collections={"self.targeted_task_list": tasks}, inline=lambda call, callee, depth: callee.cls == COMPONENT, max_depth=3)
             outs = I.run_function(g, heap=heap)
             for st, ex in outs:
                 v = ex[1] if ex and ex[0] == "return" else None
@@ -131,7 +131,8 @@ def r13_3(ctx):
                 P = set(present)
                 ctx.instance(construct(g, f"present={','.join(present) or 'none'}"))
                 if got is None:
-                    ctx.violation(construct(g, "undetermined"), g.loc(), f"is_ready() not determined for task states {sorted(P)}: {v!r}")
+                    # the analyser cannot evaluate this formulation: never guess a verdict
+                    raise AnalysisError(f"R13.3: is_ready() not determined for task states {sorted(P)}: {v!r} (unrecognised idiom)")
                 elif got and ("WORKING" in P or P <= {"FINISHED"} or "READY" not in P):
                     ctx.violation(construct(g, "ready-table"), g.loc(), f"is_ready() is True for task states {sorted(P)} (must be False while a task is WORKING, when all are FINISHED, and without a READY task)")
                 elif not got and "READY" in P and "WORKING" not in P:
